@@ -7,6 +7,7 @@ over symbolic header-token sequences. A path that ends in a panic is a counterex
 texts are rendered as source text and parsed natively.
 Outside: termination, the lexer's own DFA (which bytes give which tokens) and the character-boundary clause.
 """
+import re
 import time
 import zlib
 
@@ -53,12 +54,24 @@ def render(m, kinds, sids=None, header="A B", trailing_newline=False):
     return header + "\n" + body + ("\n" if trailing_newline else "")
 
 
+# trailing comments of multi-byte characters: layout only, but they move every byte offset that an error location
+# could be computed from (several lengths, so that a miscounted offset lands inside a character at least once)
+DECORS = (" # µ", "\t#Ωx", " \t# µΩ größe € \U0001F600")
+
+
 def parse_scenarios(m, kinds, sids, headers=("A B", "A", "A B C")):
     out = []
     for h in headers:
         for nl in (False, True):
-            out.append(Scenario(render(m, kinds, sids, h, nl), [], mode="parse", render=True,
+            src = render(m, kinds, sids, h, nl)
+            out.append(Scenario(src, [], mode="parse", render=True,
                                 note="tokens %s header %r newline %s" % ([kind_name(m, k) for k in kinds], h, nl)))
+            lines = src.split("\n")
+            for d in (DECORS if h == headers[0] else DECORS[:1]):
+                dec = "\n".join([lines[0]] + [(l + d) if (l or i < len(lines) - 2) else l for i, l in enumerate(lines[1:])])
+                out.append(Scenario(dec, [], mode="parse", render=True,
+                                    note="tokens %s header %r newline %s, multi-byte comment %r appended" % (
+                                        [kind_name(m, k) for k in kinds], h, nl, d)))
     return out
 
 
@@ -77,7 +90,7 @@ def only_bad(outcome):
 
 
 def explore_block(O, N, end_token=None, first_class=None, nsig=2, keep=(), fixed=(), keep_outcomes=None, suffix=(),
-                  path_hook=None):
+                  path_hook=None, cut_outer=False, from_header=False):
     m = O.mir
     fn = O.find("::parse_stmt_block")
     eng = O.engine()
@@ -97,6 +110,10 @@ def explore_block(O, N, end_token=None, first_class=None, nsig=2, keep=(), fixed
     ts.install(eng)
     if path_hook is not None:
         eng.path_hook = path_hook(eng, ts)
+    if cut_outer:
+        hs = sorted(set(d for _, d in fn.back_edges()))
+        if hs:
+            eng.cut_blocks = {hs[0]}
     eng.max_visits = ts.n + 4
     eng.max_recursion = ts.n + 2
 
@@ -117,8 +134,111 @@ def explore_block(O, N, end_token=None, first_class=None, nsig=2, keep=(), fixed
         eng_.field(me, m.fidx("Parser", "signals")).target = build.slice_of_items(sigs, "[String]")
         line = eng_.scalar(eng_.field(me, m.fidx("Parser", "line"), "usize"))
         st.pc.append(z3.ULT(line, bv64(1 << 40)))
-    paths = O.explore(eng, fn, setup=setup)
+    if from_header and eng.cut_blocks:
+        # one turn of the statement loop from an arbitrary state of the function's locals
+        paths = O.explore(eng, fn, setup=setup, start_bb=sorted(eng.cut_blocks)[0])
+    else:
+        paths = O.explore(eng, fn, setup=setup)
     return m, eng, ts, paths
+
+
+_POS_RX = None
+
+
+def location_hook(state, m):
+    """path hook factory: a returned ParseError may only be located by token boundaries (tokI.start / tokI.end, in
+    source order) or the end of the source - the lexer obligations put those on character boundaries inside the
+    source.  Keeps the paths that locate an error by anything else."""
+    import re as _re
+    from ..models import vec_slice
+    rx = _re.compile(r"^tok(\d+)\.(start|end)$")
+    state["located"] = 0
+    state["badloc"] = []
+
+    stored = _re.compile(r"^c\d+#Some\.")     # payload of what a HashMap insert / entry call handed back
+
+    def key(t, allow_stored=False):
+        t = z3.simplify(t)
+        if not z3.is_const(t) or t.decl().kind() != z3.Z3_OP_UNINTERPRETED:
+            return None
+        nm = t.decl().name()
+        if nm == "input.len":
+            return (1 << 30, 0)
+        if allow_stored and stored.match(nm):
+            return "stored"
+        mm = rx.match(nm)
+        return (int(mm.group(1)), 0 if mm.group(2) == "start" else 1) if mm else None
+
+    def ranges_in(n, out, depth=0):
+        if n is None or depth > 4:
+            return
+        if n.ty and _re.fullmatch(r"(?:(?:std|core)::ops::(?:range::)?)?Range<usize>", n.ty.strip()) and n.fields and 0 in n.fields and 1 in n.fields:
+            out.append(n)
+            return
+        for v in (n.fields or {}).values():
+            if hasattr(v, "fields"):
+                ranges_in(v, out, depth + 1)
+        for v in (n.variants or {}).values():
+            ranges_in(v, out, depth + 1)
+
+    def factory(eng, ts):
+        at_idx = m.fidx("ParseError", "at")
+
+        def hook(p):
+            if p.outcome != "return" or p.ret is None or not p.ret.variants or "Err" not in p.ret.variants:
+                return False
+            err = p.ret.variants["Err"]
+            if not err.fields or 0 not in err.fields:
+                return False
+            saved = eng.cur_state
+            eng.cur_state = p.state
+            try:
+                sl = vec_slice(eng, eng.field(err.fields[0], at_idx))
+                ln = z3.simplify(eng.length(sl))
+                why = None
+                if not z3.is_bv_value(ln) or len(sl.elems or []) != ln.as_long():
+                    why = "the list of locations is not determined by the path"
+                else:
+                    # spans kept in the parser's own maps (virtual signals, expected inputs / outputs) come back out of
+                    # them in DuplicateVirtualSignal errors: what goes in must be a token-boundary span too
+                    has_store = False
+                    for ev in p.trace:
+                        if ev.kind == "call" and _re.search(r"HashMap::insert$|Entry::or_insert$", ev.norm):
+                            has_store = True
+                            rs = []
+                            for a_ in ev.args[1:]:
+                                ranges_in(a_, rs)
+                            for r_ in rs:
+                                a = key(eng.scalar(eng.field(r_, 0, "usize")))
+                                b = key(eng.scalar(eng.field(r_, 1, "usize")))
+                                if a is None or b is None or a > b:
+                                    why = "a span stored for later error reports is not a token-boundary span"
+                    for _, e in sl.elems:
+                        if why:
+                            break
+                        a = key(eng.scalar(eng.field(e, 0, "usize")), has_store)
+                        b = key(eng.scalar(eng.field(e, 1, "usize")), has_store)
+                        if a == "stored" and b == "stored":
+                            continue
+                        if a is None or b is None or "stored" in (a, b):
+                            why = "a location bound is computed, not a token boundary: %s..%s" % (
+                                str(z3.simplify(eng.scalar(eng.field(e, 0, "usize"))))[:60],
+                                str(z3.simplify(eng.scalar(eng.field(e, 1, "usize"))))[:60])
+                            break
+                        if a > b:
+                            why = "a location ends before it starts (%s > %s)" % (a, b)
+                            break
+            except Exception as ex:        # navigation failed: unknown shape
+                why = "the error value has an unexpected shape (%s)" % ex
+            finally:
+                eng.cur_state = saved
+            state["located"] += 1
+            if why and len(state["badloc"]) < 24:
+                state["badloc"].append((p, why))
+                return True
+            return False
+        return hook
+    return factory
 
 
 def token_facts(m, ts, mod):
@@ -148,9 +268,18 @@ def classes(m, parts):
 def total_block(O, N, part=None, parts=1, nsig=2, fixed=()):
     m0 = O.mir
     fc = classes(m0, parts)[part] if part is not None and N > 0 else None
-    m, eng, ts, paths = explore_block(O, N, None, fc, nsig, fixed=fixed, keep_outcomes=only_bad)
+    loc = {}
+    m, eng, ts, paths = explore_block(O, N, None, fc, nsig, fixed=fixed, keep_outcomes=only_bad, path_hook=location_hook(loc, m0))
     if not eng.outcomes.get("return"):
         O.inconclusive("vacuous: the parser never returns in this class")
+    for p, why in loc.get("badloc", []):
+        def lfacts(mod, why=why):
+            return {"site": "error location", "what": re.sub(r"\d+", "N", why)[:80]}
+
+        def lscen(mod):
+            kinds, sids = token_facts(m, ts, mod)
+            return parse_scenarios(m, kinds, sids)
+        O.fail_path(p, "a parse error is located by something other than token boundaries: %s" % why, lfacts, lscen, parse_judge_total)
     total_paths = eng.npaths
     npanic = 0
     for p in paths:
@@ -169,6 +298,8 @@ def total_block(O, N, part=None, parts=1, nsig=2, fixed=()):
             kinds, sids = token_facts(m, ts, mod)
             return parse_scenarios(m, kinds, sids)
         O.fail_path(p, "parser panics at %s: %s" % (p.site.split("::")[-1], p.detail), facts, scen, parse_judge_total)
+    O.note("%d returned errors: every location is a span between token boundaries in source order (or the end of the source)"
+           % loc.get("located", 0))
     O.note("%s%d symbolic tokens%s, %d signals in the header: %d paths, %d ending in a panic" % (
         ("after %s: " % " ".join(fixed)) if fixed else "", N, "" if part is None else " (class %d/%d of the first token)" % (part + 1, parts), nsig, total_paths, npanic))
 
